@@ -217,11 +217,72 @@ func (w *World) renderQuery(o *Obl, forCVC5 bool) string {
 		}
 		probe.WriteString(o.Goal.String())
 		probe.WriteString(defs)
-		ptxt := probe.String()
+		_ = probe
+		axBySel := map[string]nodeAxiom{}
 		for _, ax := range w.nodeAxiomList() {
-			if strings.Contains(ptxt, "("+ax.sel+" ") {
-				b.WriteString(ax.text)
-			}
+			axBySel[ax.sel] = ax
+		}
+		seenInst := map[string]bool{}
+		var insts []string
+		var scan func(t *Term)
+		scan = func(t *Term) {
+			walk(t, func(sub *Term) {
+				if sub.Kind != KApp || len(sub.Args) != 1 {
+					return
+				}
+				if strings.HasPrefix(sub.Op, "D_") && sub.Args[0].Sort == "Dyn" {
+					// a getter applied to an interface value (block.Body(), operation.Left()): the value is
+					// taken apart inside the getter's definition -- instantiate for every node type
+					arg := sub.Args[0]
+					fv := map[string]string{}
+					collectVars(arg, fv)
+					for v := range fv {
+						if _, free := vars[v]; !free {
+							return
+						}
+					}
+					for _, ax := range w.nodeAxiomList() {
+						pl := App(ax.sel, ax.psort, arg)
+						key := pl.String()
+						if seenInst[key] {
+							continue
+						}
+						seenInst[key] = true
+						inst := Implies(Is(ax.ctor, arg), subst(ax.body, map[string]*Term{"node!x": pl}))
+						insts = append(insts, "(assert "+inst.String()+")\n")
+					}
+					return
+				}
+				ax, ok := axBySel[sub.Op]
+				if !ok {
+					return
+				}
+				arg := sub.Args[0]
+				fv := map[string]string{}
+				collectVars(arg, fv)
+				for v := range fv {
+					if _, free := vars[v]; !free {
+						return // mentions a bound variable or a definition parameter: no closed instance
+					}
+				}
+				key := sub.String()
+				if seenInst[key] {
+					return
+				}
+				seenInst[key] = true
+				inst := Implies(Is(ax.ctor, arg), subst(ax.body, map[string]*Term{"node!x": sub}))
+				insts = append(insts, "(assert "+inst.String()+")\n")
+				// the instance mentions the children: they may be taken apart in the query as well,
+				// but only terms that already occur are instantiated (no new terms are invented)
+			})
+		}
+		for _, a := range o.Assumes {
+			scan(a)
+		}
+		scan(o.Goal)
+		sort.Strings(insts)
+		for _, i := range insts {
+			b.WriteString(i)
 		}
 	}
 	for _, a := range o.Assumes {
@@ -303,6 +364,8 @@ func strRangeAxioms(terms map[string]*Term, vars map[string]string) string {
 
 type nodeAxiom struct {
 	ctor, sel, text string
+	body  *Term  // the invariant over the placeholder node!x (the payload)
+	psort string // sort of the payload
 }
 
 // nodeAxiomList: one quantified fact per AST node type with a node invariant: whatever interface
@@ -362,8 +425,21 @@ func (w *World) nodeAxiomList() []nodeAxiom {
 			fmt.Printf("NOTE node invariant of %s mentions a defined function and is not used as an axiom\n", k)
 			continue
 		}
-		text := fmt.Sprintf("(assert (forall ((d!n Dyn)) (! (=> ((_ is %s) d!n) %s) :pattern ((%s d!n)))))\n", cn, txt, sel)
-		w.nodeAxioms = append(w.nodeAxioms, nodeAxiom{ctor: cn, sel: sel, text: text})
+		// NOT a quantified axiom: Dyn is a free datatype, so "every value built with this constructor has a
+		// payload that satisfies the invariant" is false in the theory (cvc5 refutes it on its own, which
+		// would make every query vacuous).  The fact is about the values that occur in an execution: it is
+		// instantiated for the closed terms of a query that are taken apart with the payload selector.
+		var rawParts []*Term
+		for _, c := range w.nodeInv[k] {
+			x := newExec(w, "nodeinv."+k)
+			st := newState()
+			env := x.newSpecEnv(st, st, w.anyFuncOfPkg(pkg))
+			env.vars[c.Param] = VarT("node!x", psort)
+			if g, err := env.evalBool(c.Expr); err == nil {
+				rawParts = append(rawParts, g)
+			}
+		}
+		w.nodeAxioms = append(w.nodeAxioms, nodeAxiom{ctor: cn, sel: sel, body: And(rawParts...), psort: psort})
 	}
 	return w.nodeAxioms
 }
